@@ -41,6 +41,9 @@ fn create_alias_command(
 
             eval::eval_values_with_error(
                 &all_arguments,
+                context.instructions,
+                context.line,
+                context.output_variable,
                 context.state,
                 context.variables,
                 context.commands,
